@@ -35,18 +35,24 @@ def lookupMap (k : Str) : List (Str × Member) → Option Member
   | [] => none
   | (k', v) :: r => if k' = k then some v else lookupMap k r
 
+/-- a name between back quotes -/
+def quoted (n : Str) : Str := '`' :: n ++ ['`']
+
+def msgHead : Str := ['I', 'n', 't', 'e', 'r', 'f', 'a', 'c', 'e', ' ']
+def msgMid : Str := [':', ' ', 'm', 'u', 'l', 't', 'i', 'p', 'l', 'e', ' ', 'd', 'e', 'f', 'i', 'n', 'i', 't', 'i', 'o', 'n', 's', ' ', 'o', 'f', ' ']
+
 /-- "Interface `I`: multiple definitions of `N`!" -/
 def msgAny (iface nm : Str) : Str :=
-  "Interface `".toList ++ iface ++ "`: multiple definitions of `".toList ++ nm ++ "`!".toList
+  msgHead ++ quoted iface ++ msgMid ++ quoted nm ++ ['!']
 
 /-- "Interface `I`: multiple definitions of <kind> `N`!" -/
 def msgKind (kind : Str) (iface nm : Str) : Str :=
-  "Interface `".toList ++ iface ++ "`: multiple definitions of ".toList ++ kind ++ " `".toList ++ nm ++ "`!".toList
+  msgHead ++ quoted iface ++ msgMid ++ kind ++ ' ' :: quoted nm ++ ['!']
 
 def kindWord : Kind → Str
-  | .method => "method".toList
-  | .typedef => "type".toList
-  | .error => "error".toList
+  | .method => ['m', 'e', 't', 'h', 'o', 'd']
+  | .typedef => ['t', 'y', 'p', 'e']
+  | .error => ['e', 'r', 'r', 'o', 'r']
 
 /-- one iteration of the `for o in mt` loop -/
 def step (i : IDL) (m : Member) : IDL :=
@@ -55,21 +61,21 @@ def step (i : IDL) (m : Member) : IDL :=
     let e1 := if i.errorKeys.contains m.name || i.typedefKeys.contains m.name then [msgAny i.name m.name] else []
     let q := insertMap m.name m i.methods
     let e2 := match q.2 with
-      | some d => [msgKind "method".toList i.name d.name]
+      | some d => [msgKind ['m', 'e', 't', 'h', 'o', 'd'] i.name d.name]
       | none => []
     { i with methodKeys := i.methodKeys ++ [m.name], methods := q.1, error := i.error ++ e1 ++ e2 }
   | .typedef =>
     let e1 := if i.errorKeys.contains m.name || i.methodKeys.contains m.name then [msgAny i.name m.name] else []
     let q := insertMap m.name m i.typedefs
     let e2 := match q.2 with
-      | some d => [msgKind "type".toList i.name d.name]
+      | some d => [msgKind ['t', 'y', 'p', 'e'] i.name d.name]
       | none => []
     { i with typedefKeys := i.typedefKeys ++ [m.name], typedefs := q.1, error := i.error ++ e1 ++ e2 }
   | .error =>
     let e1 := if i.typedefKeys.contains m.name || i.methodKeys.contains m.name then [msgAny i.name m.name] else []
     let q := insertMap m.name m i.errors
     let e2 := match q.2 with
-      | some d => [msgKind "error".toList i.name d.name]
+      | some d => [msgKind ['e', 'r', 'r', 'o', 'r'] i.name d.name]
       | none => []
     { i with errorKeys := i.errorKeys ++ [m.name], errors := q.1, error := i.error ++ e1 ++ e2 }
 
